@@ -39,11 +39,15 @@ pub struct Case {
     pub chunk: usize,
     /// "zero" | "trickle"
     pub credit: String,
+    /// the response is produced through the service's `Err` path (separate sending code)
+    pub via_err: bool,
+    /// size of the chunks of a chunked request body (0: one chunk per 16 KiB segment)
+    pub req_chunk: usize,
 }
 
 impl Case {
     fn to_json(&self) -> Value {
-        json!({"scenario": self.scenario, "load": self.load, "consumer": self.consumer, "chunked": self.chunked, "write_buf": self.write_buf, "chunk": self.chunk, "credit": self.credit})
+        json!({"scenario": self.scenario, "load": self.load, "consumer": self.consumer, "chunked": self.chunked, "write_buf": self.write_buf, "chunk": self.chunk, "credit": self.credit, "via_err": self.via_err, "req_chunk": self.req_chunk})
     }
     fn from_json(v: &Value) -> Case {
         Case {
@@ -54,10 +58,12 @@ impl Case {
             write_buf: v["write_buf"].as_u64().map(|x| x as usize),
             chunk: v["chunk"].as_u64().unwrap_or(1000) as usize,
             credit: v["credit"].as_str().unwrap_or("zero").to_string(),
+            via_err: v["via_err"].as_bool().unwrap_or(false),
+            req_chunk: v["req_chunk"].as_u64().unwrap_or(0) as usize,
         }
     }
     fn sig(&self) -> String {
-        format!("{}|{}|chunked={}|wb={:?}|chunk={}|{}", self.scenario, self.consumer, self.chunked, self.write_buf, self.chunk, self.credit)
+        format!("{}|{}|chunked={}|wb={:?}|chunk={}|{}|err={}|rc={}", self.scenario, self.consumer, self.chunked, self.write_buf, self.chunk, self.credit, self.via_err, self.req_chunk)
     }
 }
 
@@ -86,6 +92,7 @@ pub struct Meas {
 /// Produce the next input segment lazily.
 struct Source {
     scenario: String,
+    req_chunk: usize,
     chunked: bool,
     sent: usize,
     load: usize,
@@ -109,7 +116,7 @@ impl Source {
             "response" => b"GET /x HTTP/1.1\r\nHost: t\r\n\r\n".to_vec(),
             _ => vec![],
         };
-        Source { scenario: c.scenario.clone(), chunked: c.chunked, sent: 0, load: c.load, head, k: 0 }
+        Source { scenario: c.scenario.clone(), req_chunk: c.req_chunk, chunked: c.chunked, sent: 0, load: c.load, head, k: 0 }
     }
     fn next(&mut self) -> Option<Vec<u8>> {
         if self.sent == 0 && !self.head.is_empty() {
@@ -140,6 +147,16 @@ impl Source {
                         while v.len() + 30 < SEG {
                             v.extend_from_slice(format!("X-H{}: value-{}\r\n", self.k, self.k).as_bytes());
                             self.k += 1;
+                        }
+                        v
+                    }
+                    "body" if self.chunked && self.req_chunk > 0 => {
+                        // many small chunks per segment: the consumer sees them one by one
+                        let mut v = Vec::with_capacity(SEG + 64);
+                        while v.len() + self.req_chunk + 16 < SEG {
+                            v.extend_from_slice(format!("{:x}\r\n", self.req_chunk).as_bytes());
+                            v.extend(std::iter::repeat_n(b'c', self.req_chunk));
+                            v.extend_from_slice(b"\r\n");
                         }
                         v
                     }
@@ -184,6 +201,7 @@ pub fn measure(c: &Case) -> Meas {
                 prog.post_gate = Some(0);
             }
             "response" => {
+                prog.fail = c.via_err;
                 prog.kind = BodyKind::BodyStream;
                 prog.steps = vec![BStep::Gen { len: c.chunk, times: c.load / c.chunk.max(1) + 1 }];
             }
@@ -447,7 +465,7 @@ fn eval_pair(c: &Case, rep: &mut Reporter) {
 
 fn grid(thorough: bool) -> Vec<Case> {
     let mut v = vec![];
-    let base = Case { scenario: String::new(), load: 0, consumer: "hold".into(), chunked: false, write_buf: None, chunk: 1000, credit: "zero".into() };
+    let base = Case { scenario: String::new(), load: 0, consumer: "hold".into(), chunked: false, write_buf: None, chunk: 1000, credit: "zero".into(), via_err: false, req_chunk: 0 };
     for sc in ["head-line", "head-many", "request-line"] {
         for load in if thorough { vec![2 << 20, 16 << 20] } else { vec![2 << 20] } {
             v.push(Case { scenario: sc.into(), load, ..base.clone() });
@@ -460,6 +478,10 @@ fn grid(thorough: bool) -> Vec<Case> {
             }
         }
     }
+    // a slow consumer that takes one small chunk per step while 16 KiB arrive per step
+    for rc in [64usize, 1024] {
+        v.push(Case { scenario: "body".into(), load: 6 << 20, consumer: "slow".into(), chunked: true, req_chunk: rc, ..base.clone() });
+    }
     for load in if thorough { vec![20_000usize, 200_000] } else { vec![40_000] } {
         v.push(Case { scenario: "pipeline".into(), load, ..base.clone() });
     }
@@ -470,6 +492,9 @@ fn grid(thorough: bool) -> Vec<Case> {
                 // 1-byte chunks: keep the step count sane
                 let total = if chunk == 1 { total.min(3 << 20) } else { total };
                 v.push(Case { scenario: "response".into(), load: total, write_buf: wb, chunk, credit: credit.into(), ..base.clone() });
+                if credit == "zero" {
+                    v.push(Case { scenario: "response".into(), load: total, write_buf: wb, chunk, credit: credit.into(), via_err: true, ..base.clone() });
+                }
             }
         }
     }
@@ -512,6 +537,7 @@ pub fn run(ctx: &Ctx, rep: &mut Reporter) {
             "response" => {
                 c.write_buf = Some(*rng.pick(&[1usize, 7, 100, 512, 3000, 4096, 20_000, 32_768, 100_000]));
                 c.chunk = *rng.pick(&[1usize, 2, 100, 1000, 9000, 33_000, 70_000]);
+                c.via_err = rng.chance(1, 3);
                 c.load = (c.write_buf.unwrap_or(32_768) + c.chunk) * rng.range(8, 24) + (512 << 10);
                 if c.chunk <= 2 {
                     c.load = c.load.min(2 << 20);
